@@ -184,6 +184,7 @@ func (h *c6dRun) doGen(s c6slot) {
 		h.spec.at(s).gen(ord)
 	}
 	h.rep.OracleChecks++
+	c6vPairOracle(h, s) // x06v1
 }
 
 func (h *c6dRun) checkRead(op string, s c6slot, got []int) {
@@ -273,6 +274,7 @@ func (h *c6dRun) doDestroyCur(s c6slot) {
 		h.destroyed(s, e.cur)
 		e.cur = 0
 	}
+	c6vPairOracle(h, s) // x06v1
 }
 
 func (h *c6dRun) doDestroyRot(s c6slot, i int) {
@@ -285,6 +287,7 @@ func (h *c6dRun) doDestroyRot(s c6slot, i int) {
 		h.violate(h.name()+"-destroyrot-status", fmt.Sprintf("%s: destroying rotated key %d of %v (rotated keys listed: %d) returned %v", h.name(), i, s, len(e.rot), []string{"ok", "an error"}[tag]))
 	}
 	h.destroyed(s, e.destroyRot(i))
+	c6vPairOracle(h, s) // x06v1
 }
 
 func (h *c6dRun) doReopen() {
